@@ -505,6 +505,10 @@ func (c *CEnv) call(e *CExpr) *Val {
 			cfail("fresh() needs a pre-state")
 		}
 		return &Val{T: And(Not(Select(c.Old.St.alloc(), a.T)), Select(c.St.alloc(), a.T), Neq(a.T, Null)), Ty: boolTy}
+	case "chanClosed":
+		// chanClosed(ch): close(ch) has been executed (by the function that made ch, or one of its closures)
+		a := arg(0)
+		return &Val{T: Select(c.St.field(chanClosedField), a.T), Ty: boolTy}
 	case "allocated":
 		a := arg(0)
 		return &Val{T: Select(c.St.alloc(), a.T), Ty: boolTy}
